@@ -22,7 +22,10 @@ EXPLANATION = (
     "(C11.2); (5) PLAIN BYTE_ARRAY by cursor-skeleton execution over abstract inputs (length fields "
     "drawn from {0,1,5}, contents unknown, 0..3 values): the decoder accepts every exactly fitting "
     "page - including a trailing empty string - with consumed = sum(4+len), rejects a page one byte "
-    "short, never reads outside the page, and the encoder appends sum(4+len) bytes. Decides these "
+    "short, never reads outside the page, and the encoder appends sum(4+len) bytes; (6) compress_data stores the caller's bytes only under "
+    "codec == UNCOMPRESSED and the compressor's own buffer/size otherwise, decompress_page writes its "
+    "output only inside the switch over the codec and only the UNCOMPRESSED arm copies raw bytes (no "
+    "size-based shortcut on either side). Decides these "
     "clauses, not value/null-position equality (the multi-batch level layout is a known value-level "
     "limitation described in DESIGN.md).")
 
@@ -44,6 +47,11 @@ def run(ctx):
     ctx.clause("C01.3 write-path statuses consumed")
     ctx.clause("C01.4 level encoder never pads mid-stream; PLAIN sizes agree")
     ctx.clause("C01.5 PLAIN BYTE_ARRAY accepts exactly fitting pages (skeleton with abstract lengths)")
+    ctx.clause("C01.6 the codec tag alone decides raw vs codec stream, in compress_data and in decompress_page")
+    from ..rules import codecrepr
+    codecrepr.writer(ctx)
+    codecrepr.reader(ctx)
+    codecrepr.loaders(ctx)
     av = P.fn("carquet_page_writer_add_values", PW)
     dp = P.fn("carquet_decode_plain", PL)
     wsw = [s for s in find_switches(av) if "type" in src(s.c[-2])]
